@@ -414,6 +414,27 @@ fn step(_: &mut (), op: &Op, _i: usize) -> Obs {
                 }
             }
         }
+        7 => {
+            let f = StreamFrame::new(StreamId::from(vi(op.args[1])), op.u(2), op.u(3) as usize);
+            let st = f.encoding_strategy(op.u(0) as usize);
+            o.push(0u8).push_bool(st.len_bit() == Len::Explicit).push_usize(st.pre_padding());
+        }
+        8 => match StreamFrame::estimate_max_capacity(op.u(0) as usize, StreamId::from(vi(op.args[1])), op.u(2)) {
+            Some(n) => {
+                o.push(1u8).push_usize(n);
+            }
+            None => {
+                o.push(0u8);
+            }
+        },
+        9 => match CryptoFrame::estimate_max_capacity(op.u(0) as usize, op.u(1)) {
+            Some(n) => {
+                o.push(1u8).push_usize(n);
+            }
+            None => {
+                o.push(0u8);
+            }
+        },
         _ => {
             o.push(-99);
         }
